@@ -20,12 +20,15 @@ from . import theory as T
 from .values import *
 from .specev import SpecEval, merge, bytes_const, length_of
 from .extract import find_function, strip_docstring
+from .envmodel import VEnvObj
 
 
 def install(Engine):
     for k, v in list(globals().items()):
         if k.startswith('m_'):
             setattr(Engine, k[2:], v)
+    from . import envmodel
+    envmodel.install(Engine)
     orig_init = Engine.__init__
 
     def __init__(self, *a, **kw):
@@ -120,7 +123,7 @@ def m_x_Constant(self, st, n, k):
 BUILTIN_NAMES = {'map', 'StructUnpack', 'StructPack', 'StructUnpackFrom', 'len', 'isinstance', 'getattr', 'setattr', 'hasattr', 'callable', 'bool', 'int',
                  'list', 'reversed', 'range', 'sorted', 'zip', 'bytes', 'str', 'repr', 'type',
                  'max', 'min', 'bisect_right', 'bisect_left', 'tuple', 'dict', 'set', 'sum', 'all', 'any',
-                 'bin', 'ord', 'breakpoint'}
+                 'bin', 'ord', 'breakpoint', 'open', 'SourceFileLoader'}
 
 
 def m_x_Name(self, st, n, k):
@@ -139,6 +142,16 @@ def m_x_Name(self, st, n, k):
         return k(st, VFunc('contract', self.module_funcs[n.id], None))
     if n.id in self.globals:
         return k(st, self.globals[n.id])
+    if self.cur is not None and ':' in self.cur.target:
+        # a module-level helper function of the same module that has no contract of its own: its real body is
+        # executed in place (it is part of the code of the function under verification)
+        q = '%s:%s' % (self.cur.target.split(':')[0], n.id)
+        try:
+            node, _, _ = find_function(q)
+        except KeyError:
+            node = None
+        if isinstance(node, ast.FunctionDef):
+            return k(st, VFunc('helper', q))
     raise Untranslated('name %s' % n.id)
 
 
@@ -157,7 +170,12 @@ def m_x_Attribute(self, st, n, k):
         if q in ('int.from_bytes', 'struct.Struct', 'struct.error', 're.escape', 'copy.deepcopy', 'sys.exc_info', 'copy.copy',
                  'traceback.format_exception',
                  'Bits.ByteBoundaryError', 'sys.byteorder', 'operator.truth', 're.compile',
-                 'pickle.dumps', 'pickle.loads', 'Exception.__init__', 're.DEBUG', 'os.path'):
+                 'pickle.dumps', 'pickle.loads', 'Exception.__init__', 're.DEBUG', 'os.path',
+                 'hashlib.sha1', 'inspect.getfile', 'os.remove', 'os.makedirs', 'sys.dont_write_bytecode'):
+            if q == 'sys.dont_write_bytecode':
+                if 'env.dont_write_bytecode' not in st.ghost:
+                    raise Untranslated('sys.dont_write_bytecode outside an environment contract')
+                return k(st, st.ghost['env.dont_write_bytecode'])
             if q == 'sys.byteorder':
                 return k(st, VStr(z3.String('sys_byteorder')))
             if q == 'struct.error':
@@ -173,6 +191,15 @@ def m_x_Attribute(self, st, n, k):
             raise Untranslated('no contract for %s.%s' % (n.value.id, n.attr))
 
     def got(st, base):
+        if isinstance(base, VFunc) and base.tag == 'builtin' and base.payload[0] == 'os.path':
+            return k(st, VFunc('builtin', 'os.path.' + n.attr))
+        if isinstance(base, VEnvObj):
+            return k(st, VFunc('envmeth', base, n.attr))
+        if isinstance(base, VRef) and base.cls == 'Module':
+            # an attribute of a module object: a name of its namespace
+            nm = z3.StringVal(n.attr)
+            return self.with_raises(st, [(z3.Not(self.slot_has(st, base.z, nm)), 'AttributeError')],
+                                    lambda st: k(st, VDyn(self.slot_get(st, base.z, nm))))
         if isinstance(base, VRef):
             owner, kind = self.attr_kind(base.cls, n.attr)
             if kind is not None:
@@ -520,6 +547,10 @@ def m_call(self, st, f, pos, kws, kwstar, starv, k, node=None):
         if getattr(self, 'tv_mode', False) and c.name in self.tv_inline:
             return self.call_inline(st, c, ([selfv] if selfv is not None else []) + pos, kws, kwstar, k)
         return self.call_contract(st, c, ([selfv] if selfv is not None else []) + pos, kws, kwstar, k)
+    if f.tag == 'envmeth':
+        return self.env_method(st, f.payload[0], f.payload[1], pos, kws, k)
+    if f.tag == 'helper':
+        return self.call_helper(st, f.payload[0], pos, kws, kwstar, k)
     if f.tag == 'role':
         return self.call_role(st, f, pos, kws, kwstar, k)
     if f.tag == 'tablefn' and getattr(self, 'tv_mode', False):
@@ -552,6 +583,62 @@ def m_call(self, st, f, pos, kws, kwstar, starv, k, node=None):
             self.add_obligation(rest, 'pre@call', 'method attribute %s is one of its candidates' % attr, z3.BoolVal(False), '')
         return
     raise Untranslated('call of %r' % (f,))
+
+
+def m_call_helper(self, st, q, pos, kws, kwstar, k):
+    """execute the real body of a module-level helper in place"""
+    node, seg, sha = find_function(q)
+    self.helper_sources = getattr(self, 'helper_sources', {})
+    self.helper_sources[q] = sha
+    if getattr(self, 'helper_depth', 0) > 4:
+        raise Untranslated('helper recursion in %s' % q)
+    a = node.args
+    if kwstar is not None or a.kwonlyargs or a.kwarg or a.defaults:
+        raise Untranslated('helper %s with keyword / default parameters' % q)
+    names = [x.arg for x in a.args]
+    env = {}
+    pos = list(pos)
+    for nm in names:
+        if nm in kws:
+            env[nm] = kws[nm]
+        elif pos:
+            env[nm] = pos.pop(0)
+        else:
+            raise Untranslated('missing argument %s of helper %s' % (nm, q))
+    if a.vararg:
+        env[a.vararg.arg] = VTuple(pos)
+    elif pos:
+        raise Untranslated('too many arguments for helper %s' % q)
+    saved_loc, outer = st.loc, st.ctx
+    st.loc = dict(env)
+    st.path.append('in:' + q.split(':')[1])
+
+    def restore(st2):
+        st2.loc = dict(saved_loc)
+        st2.ctx = outer
+
+    def on_return(st2, v):
+        restore(st2)
+        self.helper_depth -= 1
+        r = k(st2, v)
+        self.helper_depth += 1
+        return r
+
+    def on_raise(st2, exc):
+        restore(st2)
+        return outer.on_raise(st2, exc)
+    st.ctx = Ctx(on_return, on_raise)
+    saved_ord = dict(self.loop_ordinals)
+    for sub in ast.walk(node):
+        if isinstance(sub, (ast.For, ast.While)):
+            self.loop_ordinals[id(sub)] = 1000 + len(self.loop_ordinals)
+        if isinstance(sub, ast.If) and not hasattr(sub, 'lineno_rel'):
+            sub.lineno_rel = 100 + sub.lineno - node.lineno
+    self.helper_depth = getattr(self, 'helper_depth', 0) + 1
+    try:
+        return self.exec_block(st, strip_docstring(node.body), lambda st2: on_return(st2, VNone()))
+    finally:
+        self.helper_depth -= 1
 
 
 def m_call_inline(self, st, c, pos, kws, kwstar, k):
@@ -864,6 +951,10 @@ def m_mod_footprint(self, st, c, env):
         if m.startswith('slot('):
             inner = m[5:-1]
             a, b = split_top(inner)
+            if a.strip().startswith('any:'):
+                # slot(any:Class, *): the slots of every object of the class (module namespaces)
+                fp.setdefault('slots', []).append(('class', a.strip()[4:]))
+                continue
             pkt = self.spec(st, a.strip(), env)
             if b.strip() == '*':
                 fp.setdefault('slots', []).append(('obj', pkt.z))
@@ -1047,6 +1138,8 @@ def m_havoc_named(self, st, pre, fp):
 def m_havoc_slots(self, st, pre, cells, alloc, nxt0):
     r = z3.Int('r!h')
     nm = z3.String('n!h')
+    if any(c[0] == 'class' for c in cells):
+        raise Untranslated('call of a contract with a class-wide slot footprint')
     objs = [c[1] for c in cells if c[0] == 'obj']
     partial = {}
     for cdesc in cells:
@@ -1507,6 +1600,12 @@ def m_bm_str_join(self, st, v, pos, kws, k):
 
 
 def m_bm_str_encode(self, st, v, pos, kws, k):
+    enc = pos[0] if pos else kws.get('encoding')
+    if enc is None or (isinstance(enc, VStr) and enc.py in ('utf-8', 'utf8')):
+        from .envmodel import utf8
+        return k(st, VBytes(utf8(v.z)))
+    if isinstance(enc, VStr) and enc.py is not None:
+        return k(st, VBytes(z3.Function('encode_' + enc.py.replace('-', '_'), T.S, T.Bytes)(v.z)))
     return k(st, VBytes(fresh('encoded', T.Bytes)))
 
 
@@ -2031,6 +2130,58 @@ def m_call_role(self, st, f, pos, kws, kwstar, k):
     return self.call_contract(st, c, [self.wrap(kind, fid)] + pos, kws, kwstar, k)
 
 
+def m_x_JoinedStr(self, st, n, k):
+    """f-string: a deterministic (uninterpreted) function of its constant template and its formatted values"""
+    parts, exprs = [], []
+    for v in n.values:
+        if isinstance(v, ast.Constant):
+            parts.append(v.value)
+        elif isinstance(v, ast.FormattedValue) and v.format_spec is None and v.conversion == -1:
+            parts.append('\x00')
+            exprs.append(v.value)
+        else:
+            raise Untranslated('f-string with conversions / format specs')
+    template = ''.join(parts)
+
+    def got(st, vs):
+        args = [to_val(v) for v in vs]
+        f = z3.Function('fstring%d' % len(args), *([T.S] + [T.Val] * len(args) + [T.S]))
+        return k(st, VStr(f(z3.StringVal(template), *args)))
+    return self.ev_list(st, exprs, got)
+
+
+def m_s_With(self, st, s, k):
+    """with <expr> as <name>: body  - for the environment's file objects (closing has no modelled effect;
+    an exception in the body propagates)"""
+    if len(s.items) != 1:
+        raise Untranslated('with statement with several items')
+    item = s.items[0]
+
+    def got(st, v):
+        if not (isinstance(v, VEnvObj) and v.cls == 'File'):
+            raise Untranslated('with statement on %s' % v.kind)
+        if item.optional_vars is not None:
+            if not isinstance(item.optional_vars, ast.Name):
+                raise Untranslated('with ... as <pattern>')
+            st.loc[item.optional_vars.id] = v
+        return self.exec_block(st, s.body, k)
+    return self.ev(st, item.context_expr, got)
+
+
+def m_s_ImportFrom(self, st, s, k):
+    for a in s.names:
+        key = '%s.%s' % (s.module, a.name)
+        if key == 'bisturi.packet.Packet' and 'PktClass' in self.classes:
+            # the Packet base class object: its pack_impl / unpack_impl are the generic drivers
+            pc = z3.Int('PACKET_BASE_CLASS')
+            st.loc[a.asname or a.name] = VRef(pc, 'PktClass')
+            st.assume(z3.And(z3.Select(st.heap['PktClass.pack_impl'], pc) == T.Val.VF(z3.Int('GENERIC_PACK_IMPL')),
+                             z3.Select(st.heap['PktClass.unpack_impl'], pc) == T.Val.VF(z3.Int('GENERIC_UNPACK_IMPL'))))
+        else:
+            raise Untranslated('import of %s' % key)
+    return k(st)
+
+
 # ====================================================================== statements
 def m_exec_block(self, st, stmts, k):
     if not stmts:
@@ -2475,6 +2626,14 @@ def m_s_For(self, st, s, k):
                 return self.unroll_for(st, s, seq.items, k)
             raise Untranslated('translation validation: loop over %s' % seq.kind)
         return self.ev(st, s.iter, got_tv)
+    if self.cur.loops.get(self.loop_ordinals[id(s)]) is None and isinstance(s.iter, (ast.Tuple, ast.List)) \
+            and len(s.iter.elts) <= 8:
+        # a loop over a literal tuple has a fixed, small number of iterations: executed item by item (complete)
+        return self.ev_list(st, list(s.iter.elts), lambda st, items: self.unroll_for(st, s, items, k))
+    if self.cur.loops.get(self.loop_ordinals[id(s)]) is None and isinstance(s.iter, ast.Name) \
+            and isinstance(st.loc.get(s.iter.id), VTuple) and len(st.loc[s.iter.id].items) <= 8:
+        # ... or over a local bound to a tuple of known length (the *args of an inlined helper)
+        return self.unroll_for(st, s, st.loc[s.iter.id].items, k)
     idx, spec = self.loop_spec(s)
 
     def got_iter(st, seq):
@@ -2618,6 +2777,8 @@ def m_check_frame(self, st, pre, c, label):
             for cdesc in fp.get('slots', []):
                 if cdesc[0] == 'obj':
                     conds.append(r == cdesc[1])
+                elif cdesc[0] == 'class':
+                    conds.append(self.inst_of(r, cdesc[1]))
                 elif cdesc[0] == 'cell':
                     conds.append(z3.And(r == cdesc[1], nm == cdesc[2]))
                 elif cdesc[0] == 'pred':
@@ -2662,6 +2823,25 @@ def m_verify_function(self, c):
     node, seg, sha = find_function(c.target)
     self.source_sha = sha
     body = strip_docstring(node.body) if not isinstance(node, ast.Lambda) else [ast.Return(value=node.body)]
+    self.dropped_prefix = None
+    if getattr(c, 'body_after_assign', None):
+        cut = None
+        for i, stmt in enumerate(body):
+            for sub in ast.walk(stmt):
+                if isinstance(sub, (ast.Assign, ast.AugAssign, ast.AnnAssign)):
+                    tg = sub.targets if isinstance(sub, ast.Assign) else [sub.target]
+                    if any(isinstance(t, ast.Name) and t.id == c.body_after_assign for t in tg):
+                        cut = i
+        if cut is None:
+            raise Untranslated('no top-level statement assigns %s: cannot cut the body' % c.body_after_assign)
+        self.dropped_prefix = dict(statements=cut + 1, first_line=body[0].lineno, last_line=body[cut].end_lineno,
+                                   kept_from_line=body[cut + 1].lineno if cut + 1 < len(body) else None,
+                                   inputs=sorted(c.locals_in))
+        self.used_assumptions.add('PARTIAL FUNCTION: the first %d top-level statements of %s (source lines %d-%d, which compute %s) are dropped; '
+                                  'the tail is verified for arbitrary values of those locals subject to the stated preconditions'
+                                  % (cut + 1, c.target, body[0].lineno, body[cut].end_lineno, ', '.join(sorted(c.locals_in))))
+        self.prefix_problems = check_prefix(body[:cut + 1], getattr(c, 'prefix_checks', []))
+        body = body[cut + 1:]
     # number loops in source order, relative line numbers for stable path ids
     self.loop_ordinals = {}
     cnt = 0
@@ -2715,6 +2895,10 @@ def m_verify_function(self, c):
             if kind == 'list':
                 st.assume(z < st.heap['next'])
     st.assume(st.heap['next'] >= 0)
+    for p, kind in getattr(c, 'locals_in', {}).items():
+        env[p] = self.wrap(kind, fresh(p, self.kind_sort(kind)))
+    if getattr(c, 'env', False):
+        self.env_init(st)
     st.loc = dict(env)
     for nm, kind in getattr(c, 'closure', {}).items():      # free variables captured from the enclosing function
         cz = fresh(nm, self.kind_sort(kind))
@@ -2724,7 +2908,7 @@ def m_verify_function(self, c):
     # python argument names are locals; check signature agreement
     argnames = [a.arg for a in node.args.args] + ([node.args.vararg.arg] if node.args.vararg else []) + \
         ([node.args.kwarg.arg] if node.args.kwarg else [])
-    declared = [p for p in c.params if not p.startswith('ghost_')]
+    declared = [p for p in c.params if not p.startswith('ghost_') and p not in getattr(c, 'locals_in', {})]
     if argnames != declared:
         raise Untranslated('signature of %s is %s but the contract declares %s' % (c.target, argnames, declared))
     for r in list(c.requires) + list(c.free_requires):
@@ -2734,6 +2918,13 @@ def m_verify_function(self, c):
     pre = st.fork()
     self.fn_pre = pre
     self.loop_frame_contract = c
+    if getattr(c, 'env', False):
+        # vacuity guard: the preconditions together with the environment axioms must not be contradictory
+        self.add_obligation(st.fork(), 'must-not-hold', 'vacuity guard: preconditions and environment axioms are satisfiable',
+                            z3.BoolVal(False), '')
+    for label, ok in getattr(self, 'prefix_problems', None) or []:
+        self.add_obligation(State(), 'structure', label, z3.BoolVal(bool(ok)), '')
+    self.prefix_problems = None
     if c.loops and cnt != max(c.loops) + 1:
         # loop specifications are keyed by loop ordinal: a body with a different number of loops than the
         # contract specifies no longer is the code the invariants were written for (a named obligation, so
@@ -2755,6 +2946,43 @@ def m_verify_function(self, c):
     # extensionality instances requested by bytes equalities
     self.ext = [T.ext_instance(a, b) for a, b in self.ext_pairs]
     return self.obligations
+
+
+def check_prefix(stmts, checks):
+    """Syntactic facts about the dropped prefix of a partially verified function (the preconditions of the
+    tail rely on them).  Returns a list of (label, ok).  Kinds of check:
+      ('guard', text)                      some top-level statement of the prefix is exactly `text` (ast.unparse)
+      ('flag-string', flag, var, prefix)   exactly one top-level `if <flag>:` assigns var; its else branch is
+                                           `var = ''`; its then branch assigns var a string literal (possibly
+                                           `literal % ...`) that contains `prefix` (hence is not empty);
+                                           no other top-level statement assigns var"""
+    out = []
+
+    def assigns(stmt, var):
+        return [sub for sub in ast.walk(stmt) if isinstance(sub, ast.Assign)
+                and any(isinstance(t, ast.Name) and t.id == var for t in sub.targets)]
+
+    def literal_head(e):
+        while isinstance(e, ast.BinOp) and isinstance(e.op, ast.Mod):
+            e = e.left
+        return e.value if isinstance(e, ast.Constant) and isinstance(e.value, str) else None
+    for chk in checks:
+        if chk[0] == 'guard':
+            ok = any(ast.unparse(s) == chk[1] for s in stmts)
+            out.append(('prefix contains `%s`' % chk[1].replace('\n', ' '), ok))
+        elif chk[0] == 'flag-string':
+            _, flag, var, head = chk
+            owners = [s for s in stmts if assigns(s, var)]
+            ok = len(owners) == 1 and isinstance(owners[0], ast.If) and ast.unparse(owners[0].test) == flag
+            if ok:
+                st_if = owners[0]
+                els = st_if.orelse
+                ok = (len(els) == 1 and isinstance(els[0], ast.Assign) and literal_head(els[0].value) == ''
+                      and not isinstance(els[0].value, ast.BinOp))
+                th = [a for s in st_if.body for a in assigns(s, var)]
+                ok = ok and len(th) == 1 and head in (literal_head(th[0].value) or '') and th[0] in st_if.body
+            out.append(('prefix: %s is a string containing %r iff %s, else the empty string' % (var, head, flag), ok))
+    return out
 
 
 def m_final_hyps(self, core_hyps, goals):
